@@ -3,6 +3,7 @@ are compiled by the real perform_compile on an in-memory Repository and by the e
 model (model/Solver.v); outcome, final graph and roots are compared."""
 from __future__ import annotations
 
+import json
 import logging
 import sys
 import threading
@@ -430,6 +431,16 @@ def case_line(case: Dict[str, Any], alphabet, xorder, C, U) -> str:
 FATAL_CLASSES = {"AssertionError", "KeyError", "ValueError", "RuntimeError", "IndexError", "AttributeError", "TypeError"}
 
 
+def put_explain(d: Dict[str, Any], key: str, value: Any) -> None:
+    """two node objects with one key can both be reachable (a stale object beside the live one): keep both explanations, in
+    a canonical order, instead of letting the traversal order decide which one survives in the observation"""
+    if key not in d:
+        d[key] = value
+        return
+    prev = d[key][1] if d[key][0] == "MULTI" else [d[key]]
+    d[key] = ["MULTI", sorted(prev + [value], key=lambda v: json.dumps(v, sort_keys=True, default=str))]
+
+
 def run_impl(case: Dict[str, Any], M, keep: bool = False, clear_caches: bool = True) -> Dict[str, Any]:
     CP, C, D, E, R, U = M
     if clear_caches:
@@ -473,9 +484,9 @@ def run_impl(case: Dict[str, Any], M, keep: bool = False, clear_caches: bool = T
         out["explain"] = {}
         for n in emitted:
             try:
-                out["explain"][n.key] = ["OK", sorted(parse_explanation(s) for s in D.build_explanation(n))]
+                put_explain(out["explain"], n.key, ["OK", sorted(parse_explanation(s) for s in D.build_explanation(n))])
             except Exception as ex:  # noqa: BLE001
-                out["explain"][n.key] = ["ERR", graphenc.exc_class(ex)]
+                put_explain(out["explain"], n.key, ["ERR", graphenc.exc_class(ex)])
         if keep:
             out["_results"], out["_roots"], out["_repo"] = results, roots, repo
     except E.NoCandidateException as ex:
@@ -562,9 +573,9 @@ def parse_model(ans: str) -> Dict[str, Any]:
                         cls = sorted(set(enc440.canon_clause([rd.next(), rd.next(), rd.next()]) for _ in range(int(rd.next()))))
                         ex = sorted(unhx(rd.next()) for _ in range(int(rd.next())))
                         ents.append([src, act, [list(c) for c in cls], ex])
-                    out["explain"][k] = ["OK", sorted(ents)]
+                    put_explain(out["explain"], k, ["OK", sorted(ents)])
                 else:
-                    out["explain"][k] = ["ERR", rd.next()]
+                    put_explain(out["explain"], k, ["ERR", rd.next()])
             out["emitted"].sort()
         if rd.i < len(rd.t) and rd.t[rd.i] == "CHK":
             rd.next()
